@@ -7,7 +7,7 @@ use blots_core::environment::Environment;
 use blots_core::expressions::{
     evaluate_pairs, pairs_to_expr_with_comments, validate_portable_value,
 };
-use blots_core::formatter::format_expr;
+use blots_core::formatter::format_statement;
 use blots_core::functions::{clear_function_call_stats, get_function_call_stats};
 use blots_core::heap::Heap;
 use blots_core::parser::{Rule, get_pairs};
@@ -268,6 +268,7 @@ fn run() -> ! {
 
         // Format each statement
         let mut formatted_output = String::new();
+        let mut is_first_statement = true;
         for pair in pairs {
             match pair.as_rule() {
                 Rule::statement => {
@@ -276,7 +277,9 @@ fn run() -> ! {
                             Rule::expression => {
                                 match pairs_to_expr_with_comments(inner_pair.into_inner()) {
                                     Ok(expr) => {
-                                        let formatted = format_expr(&expr, None);
+                                        let formatted =
+                                            format_statement(&expr, None, is_first_statement);
+                                        is_first_statement = false;
                                         formatted_output.push_str(&formatted);
                                         formatted_output.push('\n');
                                     }
@@ -293,7 +296,9 @@ fn run() -> ! {
                                         let output_expr = Spanned::dummy(Expr::Output {
                                             expr: Box::new(inner_expr),
                                         });
-                                        let formatted = format_expr(&output_expr, None);
+                                        let formatted =
+                                            format_statement(&output_expr, None, is_first_statement);
+                                        is_first_statement = false;
                                         formatted_output.push_str(&formatted);
                                         formatted_output.push('\n');
                                     }
